@@ -90,6 +90,8 @@ PROPS = {
             "Replicon.C04.C04_update_tick_moves",
             "Replicon.C04.C04_gate",
             "Replicon.C04.C04_applied_before_delivery",
+            "Replicon.C04.C04_history",
+            "Replicon.C04.C04_ticks_compose",
             "Replicon.C04.C04_refs_resolve",
             "Replicon.C04.C04_refs_refused",
             "Replicon.C04.C04_end_to_end_partial",
@@ -100,7 +102,7 @@ PROPS = {
             "modelled, not verified: Bevy ECS (change detection as one logical clock, iteration orders as multisets, required components, observers), Bevy's Events<E> double buffer and its ageing schedule (a nondeterministic input of the model), "
             "postcard encodings of the harness's event types, the transport (ordered reliable channels deliver once and in order: the harness is the network); RepliconTick wrap-around inside the client event queue is not modelled",
         ],
-        "assumptions": ["partial: the composition over the joint server/transport/client state machine with several clients is not one theorem (C04_end_to_end_partial names the proved part; C04_applied_before_delivery is the single-client composition); it is covered by the oracle and the L1/L3 lock step."],
+        "assumptions": ["C04_history holds for all histories of the joint server model (any number of clients). What remains assumed for the unconditional statement: the ordered reliable channel delivers update messages in sending order, and NoTickZeroUpdate (known finding F20: with a replication run at tick 0 the statement is false for events too; replay findings/F20-event.trace). Both are checked on the implementation by the C04 oracles."],
     },
     "C05": {
         "modules": ["Replicon.Props.C05"],
@@ -118,6 +120,10 @@ PROPS = {
             "Replicon.C05.C05_queue_sorted",
             "Replicon.C05.C05_client_event_once",
             "Replicon.C05.C05_sender_identity",
+            "Replicon.C05.C05_history_order",
+            "Replicon.C05.C05_history_at_most_once",
+            "Replicon.C05.C05_history_late_joiner",
+            "Replicon.C05.C05_history_reachable",
         ],
         "profiles": [{"name": "sys_evt", "shards": {"thorough": 8}}],
         "rule": SYS_RULE + LOCK + EVT_RULE + "For C05: oracles on the implementation: nothing is observed twice by the same receiver; nothing is observed that nobody sent; a server event reaches only clients its mode selects, only clients whose session started before the server frame that sent it; after the quiescent flush every ordered event sent while the session was up (client authorized at emission, session never cut) was observed exactly once by each intended client and every client event by the server; per receiver and type the observation order is the sending order; client events arrive with the emitter's identity and the entity the emitter referenced.",
@@ -125,7 +131,7 @@ PROPS = {
             "modelled, not verified: Bevy ECS (change detection as one logical clock, iteration orders as multisets, required components, observers), Bevy's Events<E> double buffer and its ageing schedule (a nondeterministic input of the model), "
             "postcard encodings of the harness's event types, the transport (ordered reliable channels deliver once and in order: the harness is the network); RepliconTick wrap-around inside the client event queue is not modelled",
         ],
-        "assumptions": ["The theorems are per side (server buffer, client queue, client send cursor); the transport's exactly-once/in-order delivery on ordered channels is an assumption about the backend (checked for the example backend by C17). A client that connects between an event's emission and the server frame that reads it counts as connected before the event was sent (the event is sent in that frame)."],
+        "assumptions": ["The history theorems are about the server (any number of clients); the client queue and the client send cursor have their own theorems (all queue states / all histories of one app); the transport's exactly-once/in-order delivery on ordered channels is an assumption about the backend (checked for the example backend by C17). A client that connects between an event's emission and the server frame that reads it counts as connected before the event was sent (the event is sent in that frame)."],
     },
     "C13": {
         "modules": ["Replicon.Props.C13"],
@@ -434,13 +440,13 @@ MANIFEST_TEXT = {
         "technique": "Lean 4 proof (per-run theorems about executable server/client protocol models) + lock-step model/implementation correspondence on real traces + property oracle on the implementation",
     },
     "C04": {
-        "text": "Lean theorems about the event model: a dependent event goes out stamped with the receiving client's update tick (C04_stamp), which send_replication moves exactly when it sends an update message (C04_update_tick_moves); the client hands an event to the game only when its stamp is not ahead of ServerUpdateTick and queues it otherwise (C04_gate); for any sequence of update messages applied in order, passing the gate implies every update message up to the stamp has been applied (C04_applied_before_delivery); references resolve through the entity map or the event is refused (C04_refs_resolve, C04_refs_refused).",
+        "text": "Lean theorems about the event model: a dependent event goes out stamped with the receiving client's update tick (C04_stamp), which send_replication moves exactly when it sends an update message (C04_update_tick_moves); the client hands an event to the game only when its stamp is not ahead of ServerUpdateTick and queues it otherwise (C04_gate); for ALL histories of the joint server model (world operations, visibility, connects, authorizations, disconnects, stops/starts, acknowledgements, emissions, frames; any number of clients) every dependent event is stamped with the tick of the last update message sent to the receiving client in its session, and those ticks strictly increase (C04_history, inductive invariant Joint.Inv); for a strictly increasing positive tick sequence, passing the gate implies every update message sent before the event has been applied (C04_ticks_compose, C04_applied_before_delivery); references resolve through the entity map or the event is refused (C04_refs_resolve, C04_refs_refused).",
         "design_ref": "DESIGN.md §7 C04",
-        "note": "partial: the multi-client joint state machine is covered by the oracle on the implementation and the lock step, not by one theorem.",
+        "note": "Assumed, not proved: in-order delivery of the ordered channel, and NoTickZeroUpdate (known finding F20, reported by the check).",
         "technique": "Lean 4 proof (theorems about executable models of the event buffers, queues and run conditions) + lock-step model/implementation correspondence on real traces + property oracle on the implementation",
     },
     "C05": {
-        "text": "Lean theorems about the event model: recipients of a dependent event are exactly the connected, authorized, not-excluded clients the mode selects (C05_recipients, C05_modes), of an independent one every selected connected client (C05_recipients_independent); one message per client and event, in buffering order (C05_once_per_client, C05_server_order); a flush leaves nothing to send again (C05_not_again); a client that connected after buffering never gets the event, whatever happens later (C05_late_joiner); the client queue loses and duplicates nothing and keeps arrival order (C05_client_exactly_once, C05_client_order, C05_queue_sorted); a client event goes on the wire at most once over any history, in emission order (C05_client_event_once); the sender identity is the transport's (C05_sender_identity).",
+        "text": "Lean theorems about the event model: recipients of a dependent event are exactly the connected, authorized, not-excluded clients the mode selects (C05_recipients, C05_modes), of an independent one every selected connected client (C05_recipients_independent); one message per client and event, in buffering order (C05_once_per_client, C05_server_order); a flush leaves nothing to send again (C05_not_again); a client that connected after buffering never gets the event, whatever happens later (C05_late_joiner); the client queue loses and duplicates nothing and keeps arrival order (C05_client_exactly_once, C05_client_order, C05_queue_sorted); a client event goes on the wire at most once over any history, in emission order (C05_client_event_once); the sender identity is the transport's (C05_sender_identity). Over ALL histories of the joint server model (Model/Joint.lean; induction over the operation list): per client and channel the dependent events handed to the transport are a sub-sequence of the emissions in emission order (C05_history_order), hence at most once and never again on later frames (C05_history_at_most_once), and after a connect nothing that was already buffered reaches the newcomer whatever happens later (C05_history_late_joiner).",
         "design_ref": "DESIGN.md §7 C05",
         "note": "Transport behaviour (exactly once, in order on ordered channels) is an assumption checked for the example backend by C17.",
         "technique": "Lean 4 proof (theorems about executable models of the event buffers, queues and run conditions) + lock-step model/implementation correspondence on real traces + property oracle on the implementation",
